@@ -243,7 +243,62 @@ pub fn check_program(ctx: &mut Ctx, start: &Pos, moves: &[Mv], ops: &[Op]) -> Re
                         return ctx.fail("iter:does-not-terminate", format!("phase #{} yields more than 300 moves", i), case());
                     }
                 }
-                if !finished {
+                // the last drain of a program may consume the generator by value: that is what reaches
+                // Iterator methods specialised on MoveGen itself (by_ref() goes through `&mut I`)
+                let is_last_drain = !ops[i + 1..].iter().any(|o| matches!(o, Op::Phase(_) | Op::Drain | Op::SetMask(_)));
+                let by_value = is_last_drain && mode >= 12 && fp(&(i, "by-value")) % 2 == 0;
+                let mut consumed_by_value = false;
+                if !finished && by_value {
+                    consumed_by_value = true;
+                    let before = (mg.len(), mg.size_hint());
+                    let owned = std::mem::replace(&mut mg, MoveGen::new_legal(&b));
+                    let (rest, counted): (Vec<Mv>, Option<usize>) = match mode {
+                        12 => {
+                            ctx.class("drain:by-value-collect");
+                            (owned.map(bridge::rmv).collect(), None)
+                        }
+                        13 => {
+                            ctx.class("drain:by-value-for_each");
+                            let mut v = vec![];
+                            owned.for_each(|m| v.push(bridge::rmv(m)));
+                            (v, None)
+                        }
+                        14 => {
+                            ctx.class("drain:by-value-fold");
+                            (
+                                owned.fold(vec![], |mut v, m| {
+                                    v.push(bridge::rmv(m));
+                                    v
+                                }),
+                                None,
+                            )
+                        }
+                        _ => {
+                            ctx.class("drain:by-value-count");
+                            (vec![], Some(owned.count()))
+                        }
+                    };
+                    let n_rest = counted.unwrap_or(rest.len());
+                    if before.0 != n_rest || before.1 != (n_rest, Some(n_rest)) {
+                        ctx.fail(
+                            "iter:len",
+                            format!("phase #{} (mask {:#x}): after {} moves len() = {}, size_hint() = {:?}, but consuming the generator by value gave {} more moves", i, mask, got.len(), before.0, before.1, n_rest),
+                            case(),
+                        )?;
+                    }
+                    if counted.is_some() {
+                        // only the number is known: nothing more to compare for this phase
+                        ctx.sample(|| case());
+                        return Ok(());
+                    }
+                    got.extend(rest);
+                    let total = got.len();
+                    let mut full: Vec<(usize, (usize, Option<usize>))> = vec![];
+                    for j in 0..=total {
+                        full.push(if j < lens.len() { lens[j] } else if j == total { (0, (0, Some(0))) } else { (total - j, (total - j, Some(total - j))) });
+                    }
+                    lens = full;
+                } else if !finished {
                     // the rest of the phase in one go; the length reported before must equal what comes
                     let before = (mg.len(), mg.size_hint());
                     let rest: Vec<Mv> = match mode {
@@ -304,7 +359,7 @@ pub fn check_program(ctx: &mut Ctx, start: &Pos, moves: &[Mv], ops: &[Op]) -> Re
                     lens = full;
                 }
                 // exhausted stays exhausted
-                if mg.next().is_some() {
+                if !consumed_by_value && mg.next().is_some() {
                     ctx.fail("iter:yields-after-exhaustion", format!("phase #{}: next() returned a move after None", i), case())?;
                 }
                 if !got.is_empty() {
